@@ -13,7 +13,7 @@ Init == tid \in 1..Len(Traces) /\ l = 1 /\ s = Init0 /\ odec = DecInit /\ verdic
 
 Step == /\ l <= Len(Tr.events) /\ verdict = "ok"
         /\ LET e == Tr.events[l]
-               m == IF e.k = "write" THEN Write(s, e.chunk) ELSE Flush(s)
+               m == IF e.k = "write" THEN Write(s, e.p, e.chunk) ELSE Flush(s, e.p)
                o == Decode([odec EXCEPT !.lines = <<>>], e.out)       \* what the console showed for this call
                exp == SubSeq(m.out, Len(s.out) + 1, Len(m.out))
                v == IF e.exc # "none" THEN "raises-" \o e.exc
